@@ -15,6 +15,7 @@ Mirrors, function by function:
                        sampling_task (one iteration)      -> samplerTick / samplePort
                        janitor_task (one iteration)       -> janitorTick / janitorPort  (no background removal pending)
   core/main.py update  (value-change detection only)      -> poll
+  get_samples_by_timestamp / remove_samples split at their awaited persistence call -> sStep (Flight, SOp)
   core/api/funcs/ports.py get_port_history                -> getPortHistory   (argument parsing, defaults, validation order)
                        delete_port_history                -> deletePortHistory
   core/api/__init__.py api_call                           -> access check (401 / 403)
